@@ -601,3 +601,51 @@ def ppt_edge_operator(rho, dims, c1, c2):
     z = (z + z.conj().T) / 2
     lam = float(np.linalg.eigvalsh(z)[-1])
     return lam * np.eye(d0 * d1) - z
+
+
+# ----------------------------------------------------------------------------
+# quantum hedging: own primal / dual pair
+# ----------------------------------------------------------------------------
+
+
+def _qubit_perm(order):
+    """Permutation matrix P with P |i_0 ... i_{m-1}> = |i_order[0] ... i_order[m-1]> on m qubits."""
+    m = len(order)
+    n = 2**m
+    t = np.eye(n).reshape([2] * m + [n])
+    return t.transpose(list(order) + [m]).reshape(n, n)
+
+
+def hedging_model(q, n, maximise=True):
+    """Own SDPs for max (min) Re Tr(Q^* X) s.t. Tr_{Y_1..Y_n} X = I, X >= 0 on (Y_1 X_1 ... Y_n X_n), and the dual
+    min (max) Tr Y s.t. E(Y) >= Q (<= Q), E(Y) = I_{Y} (x) Y_{X} written in the interleaved ordering.
+    Returns (primal value, dual value) or None."""
+    import cvxpy as cp
+
+    m = 2 * n
+    dim = 2**m
+    x = cp.Variable((dim, dim), hermitian=True)
+    # partial trace over the even positions (the Y systems): sum over computational basis vectors of those systems
+    order = [2 * i for i in range(n)] + [2 * i + 1 for i in range(n)]  # interleaved -> (Y..., X...)
+    p_to_yx = _qubit_perm(order)  # maps |y1 x1 y2 x2> to |y1 y2 x1 x2>
+    xs = p_to_yx @ x @ p_to_yx.T
+    dy = 2**n
+    tr_y = 0
+    for i in range(dy):
+        e = np.kron(np.eye(dy)[:, [i]], np.eye(dy))
+        tr_y = tr_y + e.T @ xs @ e
+    cons = [tr_y == np.eye(dy), x >> 0]
+    obj = cp.real(cp.trace(q.conj().T @ x))
+    primal = cp.Problem(cp.Maximize(obj) if maximise else cp.Minimize(obj), cons)
+    y = cp.Variable((dy, dy), hermitian=True)
+    emb = p_to_yx.T @ cp.kron(np.eye(dy), y) @ p_to_yx
+    qh = (q + q.conj().T) / 2
+    dual = cp.Problem(cp.Minimize(cp.real(cp.trace(y))), [emb >> qh]) if maximise else cp.Problem(cp.Maximize(cp.real(cp.trace(y))), [emb << qh])
+    try:
+        pv = primal.solve(solver=cp.SCS, eps=1e-7, max_iters=50000)
+        dv = dual.solve(solver=cp.SCS, eps=1e-7, max_iters=50000)
+    except Exception:
+        return None
+    if primal.status != "optimal" or dual.status != "optimal":
+        return None
+    return float(pv), float(dv)
